@@ -8,7 +8,7 @@ import common, gen, impl
 ALLOWED_AXIOMS = set()
 TRUSTED_BASE = [
     "Coq 8.16.1 kernel (coqc); no native_compute; every C11 theorem: Closed under the global context",
-    "hand-written model Pessimistic.v of check_dominates / is_pt_in_extended_polytope / line_seg_pt_intersect_at_dim (zero denominators -> no intersection), tied to vopy/utils/utils.py and vopy/confidence_region.py by exact correspondence on dyadic rectangles and integer cones",
+    "model Pessimistic.v of check_dominates / is_pt_in_extended_polytope / line_seg_pt_intersect_at_dim (zero denominators -> no intersection); the three functions are regenerated literally by translator/pessgen.py (Gen_pess.v) and proved to decide the same thing (PessRefine.v); the model is additionally tied to vopy/utils/utils.py and vopy/confidence_region.py by exact correspondence on dyadic rectangles and integer cones",
     "soundness proved for every cone and dimension (PessProofs.check_dominates_sound); completeness for invertible 2x2 cones proved in exact arithmetic (PessComplete.check_dominates_complete_2x2, any opening angle, degenerate boxes); the floating-point implementation is compared with the exact model and with the exact Fourier-Motzkin specification (completeness with a margin of 2^-20 x box extent + 2^-44 x coordinate magnitude, which is what 'non-negligible margin' means here), including configurations translated by up to 2^25",
     "translator: compute_pessimistic_set of VOGP / eps-PAL / VOGP_AD regenerated (Gen_algos.v)",
     "extraction with ExtrOcamlBasic only + driver; OCaml 4.13.1",
